@@ -802,6 +802,251 @@ pub fn search_suffix_base(out: &mut Vec<Finding>) {
     }
 }
 
+
+fn parts_owned(s: &[u8]) -> (Option<Vec<u8>>, Option<Vec<u8>>, Vec<u8>, Option<Vec<u8>>, Option<Vec<u8>>) {
+    let (a, b, c, d, e) = rfc_parts(s);
+    (a.map(|x| x.to_vec()), b.map(|x| x.to_vec()), c.to_vec(), d.map(|x| x.to_vec()), e.map(|x| x.to_vec()))
+}
+
+/// the three documented disambiguations of C05
+fn disamb(path: &[u8], has_scheme: bool, has_auth: bool) -> Vec<u8> {
+    let first_seg_has_colon = path.split(|c| *c == b'/').next().map_or(false, |f| f.contains(&b':'));
+    if has_auth && !path.is_empty() && path[0] != b'/' {
+        [b"/", path].concat()
+    } else if !has_auth && path.starts_with(b"//") {
+        [b"/.", path].concat()
+    } else if !has_scheme && !has_auth && first_seg_has_colon {
+        [b"./", path].concat()
+    } else {
+        path.to_vec()
+    }
+}
+
+fn showv(o: &Option<Vec<u8>>) -> String {
+    match o {
+        None => "None".into(),
+        Some(x) => format!("Some({:?})", lossy(x)),
+    }
+}
+
+/// C05 / C04: the five setters on every short reference
+pub fn search_setters(out: &mut Vec<Finding>) {
+    let refs: Vec<Vec<u8>> = strings(b"a:/?#", 5).into_iter().filter(|s| uri::UriRef::new(s).is_ok()).collect();
+    let opt_vals: Vec<Option<&[u8]>> = vec![None, Some(b""), Some(b"b")];
+    let paths: Vec<&[u8]> = vec![b"", b"/", b"b", b"/b", b"//b", b"b:c", b"./b", b"b/", b".//b", b"/.//b", b"./b:c"];
+    for r in &refs {
+        let (s0, a0, p0, q0, f0) = parts_owned(r);
+        for which in 0..5 {
+            let vals: Vec<Option<&[u8]>> = match which {
+                0 => vec![None, Some(b"b")],
+                2 => paths.iter().map(|p| Some(*p)).collect(),
+                _ => opt_vals.clone(),
+            };
+            for v in vals {
+                let r2 = r.clone();
+                let v2 = v.map(|x| x.to_vec());
+                let res = guarded(move || {
+                    let mut u = uri::UriRefBuf::new(r2).unwrap();
+                    match which {
+                        0 => u.set_scheme(v2.as_ref().map(|x| uri::Scheme::new(x).unwrap())),
+                        1 => u.set_authority(v2.as_ref().map(|x| uri::Authority::new(x).unwrap())),
+                        2 => u.set_path(uri::Path::new(v2.as_ref().unwrap()).unwrap()),
+                        3 => u.set_query(v2.as_ref().map(|x| uri::Query::new(x).unwrap())),
+                        _ => u.set_fragment(v2.as_ref().map(|x| uri::Fragment::new(x).unwrap())),
+                    }
+                    u.into_bytes()
+                });
+                let name = ["set_scheme", "set_authority", "set_path", "set_query", "set_fragment"][which];
+                let vv = v.map(|x| x.to_vec());
+                let inputs = vec![r.clone(), vv.clone().unwrap_or_else(|| b"<None>".to_vec())];
+                let n = match res {
+                    None => {
+                        out.push(Finding { what: format!("{} panics", name), inputs, real: "panic".into(), expected: "no panic".into() });
+                        return;
+                    }
+                    Some(n) => n,
+                };
+                if uri::UriRef::new(&n).is_err() {
+                    out.push(Finding { what: format!("{} leaves a text that does not re-parse as a URI reference", name), inputs, real: lossy(&n), expected: "a valid URI reference".into() });
+                    return;
+                }
+                let (s1, a1, p1, q1, f1) = parts_owned(&n);
+                let es = if which == 0 { vv.clone() } else { s0.clone() };
+                let ea = if which == 1 { vv.clone() } else { a0.clone() };
+                let eq_ = if which == 3 { vv.clone() } else { q0.clone() };
+                let ef = if which == 4 { vv.clone() } else { f0.clone() };
+                let tp = if which == 2 { vv.clone().unwrap() } else { p0.clone() };
+                let ep = disamb(&tp, es.is_some(), ea.is_some());
+                let path_ok = p1 == ep || (which != 2 && p1 == p0 && uri::UriRef::new(&n).is_ok());
+                if s1 != es || a1 != ea || q1 != eq_ || f1 != ef || !path_ok {
+                    out.push(Finding {
+                        what: format!("{}: reading the components back does not give the requested value with the others unchanged (up to the documented disambiguations of the path)", name),
+                        inputs,
+                        real: format!("{:?}: s={} a={} p={:?} q={} f={}", lossy(&n), showv(&s1), showv(&a1), lossy(&p1), showv(&q1), showv(&f1)),
+                        expected: format!("s={} a={} p={:?} q={} f={}", showv(&es), showv(&ea), lossy(&ep), showv(&eq_), showv(&ef)),
+                    });
+                    return;
+                }
+            }
+        }
+    }
+}
+
+fn unshield<'a>(mut l: Vec<&'a [u8]>) -> Vec<&'a [u8]> {
+    if l.len() >= 2 && l[0] == b"." && (l[1].is_empty() || l[1].contains(&b':')) {
+        l.remove(0);
+    }
+    l
+}
+
+/// C10 / C09 / C04: path edits in place inside a reference: frame, re-parse, list semantics of push, idempotence of normalize
+pub fn search_pathops(out: &mut Vec<Finding>, only_normalize: bool) {
+    let refs: Vec<Vec<u8>> = strings(b"a:/?.", 5).into_iter().filter(|s| uri::UriRef::new(s).is_ok()).collect();
+    let segsv: Vec<&[u8]> = vec![b"b", b"", b"b:c", b".", b".."];
+    let ops: Vec<&str> = if only_normalize { vec!["normalize"] } else { vec!["push", "pop", "clear", "symbolic_push", "normalize"] };
+    for r in &refs {
+        let (s0, a0, p0, q0, f0) = parts_owned(r);
+        for op in &ops {
+            let args: Vec<Option<&[u8]>> = if *op == "push" || *op == "symbolic_push" { segsv.iter().map(|x| Some(*x)).collect() } else { vec![None] };
+            for arg in args {
+                let (r2, op2, arg2) = (r.clone(), op.to_string(), arg.map(|x| x.to_vec()));
+                let res = guarded(move || {
+                    let mut u = uri::UriRefBuf::new(r2).unwrap();
+                    {
+                        let mut p = u.path_mut();
+                        match op2.as_str() {
+                            "push" => p.push(uri::Segment::new(arg2.as_ref().unwrap()).unwrap()),
+                            "pop" => p.pop(),
+                            "clear" => p.clear(),
+                            "symbolic_push" => p.symbolic_push(uri::Segment::new(arg2.as_ref().unwrap()).unwrap()),
+                            _ => p.normalize(),
+                        }
+                    }
+                    let first = u.as_bytes().to_vec();
+                    if op2 == "normalize" {
+                        u.path_mut().normalize();
+                    }
+                    (first, u.into_bytes())
+                });
+                let inputs = vec![r.clone(), arg.map(|x| x.to_vec()).unwrap_or_else(|| b"<no argument>".to_vec())];
+                let (n, twice) = match res {
+                    None => {
+                        out.push(Finding { what: format!("path_mut().{} panics", op), inputs, real: "panic".into(), expected: "no panic".into() });
+                        return;
+                    }
+                    Some(x) => x,
+                };
+                if uri::UriRef::new(&n).is_err() {
+                    out.push(Finding { what: format!("path_mut().{} leaves a text that does not re-parse as a URI reference", op), inputs, real: lossy(&n), expected: "a valid URI reference".into() });
+                    return;
+                }
+                let (s1, a1, p1, q1, f1) = parts_owned(&n);
+                if s1 != s0 || a1 != a0 || q1 != q0 || f1 != f0 {
+                    out.push(Finding { what: format!("path_mut().{} changes a component other than the path", op), inputs, real: lossy(&n), expected: format!("s={} a={} q={} f={} as before", showv(&s0), showv(&a0), showv(&q0), showv(&f0)) });
+                    return;
+                }
+                let abs0 = p0.first() == Some(&b'/') || (a0.is_some() && false);
+                let abs1 = p1.first() == Some(&b'/');
+                if *op == "normalize" {
+                    if twice != n {
+                        out.push(Finding { what: "in-place normalize is not idempotent".into(), inputs, real: format!("{:?} then {:?}", lossy(&n), lossy(&twice)), expected: "same text".into() });
+                        return;
+                    }
+                    if abs1 != abs0 && !p0.is_empty() {
+                        out.push(Finding { what: "in-place normalize changes the path from absolute to relative or back".into(), inputs, real: lossy(&n), expected: "same kind".into() });
+                        return;
+                    }
+                    let l0 = segs(&p0);
+                    let e = norm(&l0, !abs0);
+                    let g = unshield(segs(&p1));
+                    // after an authority "/" stands for both no segment and one empty segment
+                    let lone_empty = e.len() == 1 && e[0].is_empty();
+                    if g != e && !(lone_empty && g.is_empty()) {
+                        out.push(Finding { what: "in-place normalize does not leave the RFC 3986 5.2.4 / Errata 4547 segment sequence".into(), inputs, real: format!("{:?} = {}", lossy(&p1), join_show(&g)), expected: join_show(&e) });
+                        return;
+                    }
+                }
+                if *op == "push" {
+                    let mut e = unshield(segs(&p0));
+                    e.push(arg.unwrap());
+                    let g = unshield(segs(&p1));
+                    // documented corner: an empty segment pushed onto an empty path needs the shield / is indistinguishable
+                    let corner = segs(&p0).is_empty() && arg.unwrap().is_empty();
+                    let mut raw = segs(&p0);
+                    raw.push(arg.unwrap());
+                    if g != e && segs(&p1) != raw && !corner {
+                        out.push(Finding { what: "push does not append exactly the given segment to the segment sequence".into(), inputs, real: format!("{:?} = {}", lossy(&p1), join_show(&g)), expected: join_show(&e) });
+                        return;
+                    }
+                }
+                if *op == "clear" && !segs(&p1).is_empty() {
+                    out.push(Finding { what: "clear leaves segments".into(), inputs, real: lossy(&p1), expected: "no segment".into() });
+                    return;
+                }
+            }
+        }
+    }
+}
+
+/// C11 / C04: authority edits in place
+pub fn search_authmut(out: &mut Vec<Finding>) {
+    let auths: Vec<Vec<u8>> = strings(b"a:@1", 4).into_iter().filter(|s| uri::Authority::new(s).is_ok()).collect();
+    let tails: Vec<&[u8]> = vec![b"", b"/p?q#f"];
+    let ovals: Vec<Option<&[u8]>> = vec![None, Some(b""), Some(b"bb")];
+    for au in &auths {
+        for tail in &tails {
+            let text = [b"s://", &au[..], tail].concat();
+            let (u0, h0, p0) = { let (a, b, c) = rfc_auth(au); (a.map(|x| x.to_vec()), b.to_vec(), c.map(|x| x.to_vec())) };
+            for which in 0..3 {
+                let vals: Vec<Option<&[u8]>> = match which { 1 => vec![Some(b""), Some(b"bb"), Some(b"[::1]")], 2 => vec![None, Some(b""), Some(b"22")], _ => ovals.clone() };
+                for v in vals {
+                    for second in [false, true] {
+                        let (t2, v2) = (text.clone(), v.map(|x| x.to_vec()));
+                        let res = guarded(move || {
+                            let mut u = uri::UriRefBuf::new(t2).unwrap();
+                            {
+                                let mut am = u.authority_mut().unwrap();
+                                match which {
+                                    0 => am.set_userinfo(v2.as_ref().map(|x| uri::UserInfo::new(x).unwrap())),
+                                    1 => am.set_host(uri::Host::new(v2.as_ref().unwrap()).unwrap()),
+                                    _ => am.set_port(v2.as_ref().map(|x| uri::Port::new(x).unwrap())),
+                                }
+                                if second {
+                                    // a further edit through the SAME handle must behave as on a fresh one
+                                    am.set_host(uri::Host::new(b"cc").unwrap());
+                                }
+                            }
+                            u.into_bytes()
+                        });
+                        let name = ["set_userinfo", "set_host", "set_port"][which];
+                        let vv = v.map(|x| x.to_vec());
+                        let inputs = vec![text.clone(), vv.clone().unwrap_or_else(|| b"<None>".to_vec())];
+                        let n = match res {
+                            None => {
+                                out.push(Finding { what: format!("authority_mut().{} panics", name), inputs, real: "panic".into(), expected: "no panic".into() });
+                                return;
+                            }
+                            Some(n) => n,
+                        };
+                        let eu = if which == 0 { vv.clone() } else { u0.clone() };
+                        let eh = if second { b"cc".to_vec() } else if which == 1 { vv.clone().unwrap() } else { h0.clone() };
+                        let ep = if which == 2 { vv.clone() } else { p0.clone() };
+                        let mut ea = vec![];
+                        if let Some(x) = &eu { ea.extend_from_slice(x); ea.push(b'@'); }
+                        ea.extend_from_slice(&eh);
+                        if let Some(x) = &ep { ea.push(b':'); ea.extend_from_slice(x); }
+                        let exp = [b"s://", &ea[..], tail].concat();
+                        if n != exp {
+                            out.push(Finding { what: format!("authority_mut().{}{} does not change exactly that sub-component", name, if second { " followed by set_host through the same handle" } else { "" }), inputs, real: lossy(&n), expected: lossy(&exp) });
+                            return;
+                        }
+                    }
+                }
+            }
+        }
+    }
+}
+
 pub fn search(prop: &str) -> Vec<Finding> {
     let mut out = vec![];
     match prop {
@@ -816,7 +1061,25 @@ pub fn search(prop: &str) -> Vec<Finding> {
                 search_segments(&mut out)
             }
         }
-        "C12" | "C09" => search_segments(&mut out),
+        "C12" => search_segments(&mut out),
+        "C09" => {
+            search_segments(&mut out);
+            if out.is_empty() {
+                search_pathops(&mut out, true)
+            }
+        }
+        "C05" => search_setters(&mut out),
+        "C10" => search_pathops(&mut out, false),
+        "C11" => search_authmut(&mut out),
+        "C04" => {
+            search_setters(&mut out);
+            if out.is_empty() {
+                search_pathops(&mut out, false)
+            }
+            if out.is_empty() {
+                search_authmut(&mut out)
+            }
+        }
         "C07" | "C08" => search_cmp(&mut out),
         "C13" => search_conv(&mut out),
         "C16" => search_suffix_base(&mut out),
